@@ -56,6 +56,7 @@ const K_WHIST: W = 4;
 const K_READ: W = 5;
 const K_CONV: W = 7;
 const K_ALLOC: W = 8;
+const K_PAIR: W = 9;
 
 fn case_table(c: &mut Cur) -> Result<Vec<W>, BadCase> {
     let code = c.next()?;
@@ -601,6 +602,138 @@ fn case_alloc(c: &mut Cur) -> Result<Vec<W>, BadCase> {
     Ok(vec![peak as W, largest as W, r.unwrap_or(2)])
 }
 
+/// Kind 9: the complete writer and reader (shapes + attribute rows through the real dbase crate).
+/// [ncalls; (row kind, ctor spec)*; nops; reader ops]   row kind: 0 = a row {idx: i} the table accepts,
+/// 1 = a row missing the field, 2 = a row whose idx has the wrong value type.
+/// reader op: 0 j (iterate pairs, at most j, -1 = all) | 2 k (seek) | 3 (count).
+/// -> per call result; entry counts (shp records, shx entries, dbf rows); per reader op its rendering.
+fn case_pair(c: &mut Cur) -> Result<Vec<W>, BadCase> {
+    use std::convert::TryInto;
+    use std::io::Cursor;
+    let ncalls = c.n()?;
+    let mut calls = vec![];
+    for _ in 0..ncalls {
+        let kind = c.next()?;
+        match build(read_ctor(c)?) {
+            Ok(Shape::NullShape) => return Err(BadCase),
+            Ok(s) => calls.push((kind, s)),
+            Err(()) => return Ok(vec![-3]),
+        }
+    }
+    let nops = c.n()?;
+    let mut ops = vec![];
+    for _ in 0..nops {
+        ops.push(match c.next()? {
+            0 => ROp::Iter(c.next()?),
+            2 => ROp::Seek(c.next()?),
+            3 => ROp::Count,
+            _ => return Err(BadCase),
+        });
+    }
+    if !c.at_end() {
+        return Err(BadCase);
+    }
+    let mut shp = Cursor::new(Vec::<u8>::new());
+    let mut shx = Cursor::new(Vec::<u8>::new());
+    let mut dbf = Cursor::new(Vec::<u8>::new());
+    let r = std::panic::catch_unwind(std::panic::AssertUnwindSafe(|| {
+        let mut out: Vec<W> = vec![];
+        {
+            let sw = ShapeWriter::with_shx(&mut shp, &mut shx);
+            let tw = dbase::TableWriterBuilder::new()
+                .add_numeric_field("idx".try_into().unwrap(), 10, 0)
+                .build_with_dest(&mut dbf);
+            let mut w = Writer::new(sw, tw);
+            out.push(calls.len() as W);
+            for (i, (kind, s)) in calls.iter().enumerate() {
+                let mut rec = dbase::Record::default();
+                match kind {
+                    0 => { rec.insert("idx".to_string(), dbase::FieldValue::Numeric(Some(i as f64))); }
+                    1 => {}
+                    _ => { rec.insert("idx".to_string(), dbase::FieldValue::Character(Some("x".to_string()))); }
+                }
+                let r = with_concrete!(s, x => w.write_shape_and_record(x, &rec), unreachable!());
+                render_unit_res(&r, &mut out);
+            }
+        }
+        out
+    }));
+    let mut out = match r {
+        Ok(o) => o,
+        Err(_) => return Ok(vec![-4]),
+    };
+    let (shp, shx, dbf) = (shp.into_inner(), shx.into_inner(), dbf.into_inner());
+    // entry counts read off the bytes
+    let mut nrec = 0;
+    let mut pos = 100usize;
+    while pos + 8 <= shp.len() {
+        let words = i32::from_be_bytes([shp[pos + 4], shp[pos + 5], shp[pos + 6], shp[pos + 7]]);
+        nrec += 1;
+        pos += 8 + 2 * (words.max(0) as usize);
+    }
+    let nidx = if shx.len() >= 100 { (shx.len() - 100) / 8 } else { 0 };
+    let nrows = if dbf.len() >= 8 { u32::from_le_bytes([dbf[4], dbf[5], dbf[6], dbf[7]]) as usize } else { 0 };
+    out.extend([nrec as W, nidx as W, nrows as W]);
+    let rr = std::panic::catch_unwind(std::panic::AssertUnwindSafe(move || -> Vec<W> {
+        let mut o: Vec<W> = vec![];
+        let sr = match ShapeReader::with_shx(Cursor::new(shp), Cursor::new(shx)) {
+            Ok(r) => r,
+            Err(e) => { o.push(1); render_error(&e, &mut o); return o; }
+        };
+        let dr = match dbase::Reader::new(Cursor::new(dbf)) {
+            Ok(r) => r,
+            Err(_) => { o.extend([1, 11]); return o; }
+        };
+        o.push(0);
+        let mut reader = Reader::new(sr, dr);
+        for op in &ops {
+            match op {
+                ROp::Iter(j) => {
+                    let limit = if *j < 0 { usize::MAX } else { *j as usize };
+                    let mut items = vec![];
+                    let mut ended = false;
+                    {
+                        let mut it = reader.iter_shapes_and_records();
+                        while items.len() < limit {
+                            match it.next() {
+                                None => { ended = true; break; }
+                                Some(x) => items.push(x),
+                            }
+                        }
+                    }
+                    o.push(items.len() as W);
+                    for it in items {
+                        match it {
+                            Ok((s, rec)) => {
+                                o.push(0);
+                                render_shape(&s, &mut o);
+                                match rec.get("idx") {
+                                    Some(dbase::FieldValue::Numeric(Some(v))) => o.push(*v as W),
+                                    _ => o.push(-1),
+                                }
+                            }
+                            Err(e) => { o.push(1); render_error(&e, &mut o); }
+                        }
+                    }
+                    o.push(ended as W);
+                }
+                ROp::Seek(k) => render_unit_res(&reader.seek(*k as usize), &mut o),
+                ROp::Count => match reader.shape_count() {
+                    Ok(n) => o.extend([0, n as W]),
+                    Err(e) => { o.push(1); render_error(&e, &mut o); }
+                },
+                _ => {}
+            }
+        }
+        o
+    }));
+    match rr {
+        Ok(o) => out.extend(o),
+        Err(_) => out.push(2),
+    }
+    Ok(out)
+}
+
 fn run_case(v: &[W]) -> Vec<W> {
     let mut c = Cur::new(v);
     let r = match c.next() {
@@ -611,6 +744,7 @@ fn run_case(v: &[W]) -> Vec<W> {
         Ok(K_READ) => case_read(&mut c),
         Ok(K_CONV) => case_conv(&mut c),
         Ok(K_ALLOC) => case_alloc(&mut c),
+        Ok(K_PAIR) => case_pair(&mut c),
         _ => Err(BadCase),
     };
     match r {
